@@ -200,7 +200,7 @@ def decide(pid, tier, units_cfg, props_cfg, quiet=False):
         # outside its reach) proves nothing about it.  If a bounded companion of the same property ran to
         # completion on the real code without a failed clause, the check reports what was explored: exit 0,
         # with a DEGRADED line and the evidence saying that only the bounded stand-in decided this tree.
-        structural = all(re.search(r"anchors? lost|extraction|verus rejected|injection|not verified but no failed obligation|kani build failed|must have a decreases clause", r or "")
+        structural = all(re.search(r"anchors? lost|extraction|verus rejected|injection|not verified but no failed obligation|kani build failed|must have a decreases clause|spurious counterexample", r or "")
                          for _, r in undecided)
         und_units = set(u for u, _ in undecided)
         def bounded_fns(r):
